@@ -130,6 +130,7 @@ def classifyVersionLine (isClient : Bool) (line : Bytes) : VersionLine :=
     let v := stripCR line
     if isPrefixOf (strBytes "SSH-2.0-") v || isPrefixOf (strBytes "SSH-1.99-") v then
       if Gen.C03.MAX_VERSION_LINE_LEN < v.length then .reject .proto
+      else if v.any (· ≥ 128) then .reject .internal     -- `version.decode('ascii')` raises UnicodeDecodeError
       else .version v
     else if isClient && !isPrefixOf (strBytes "SSH-") v then .banner
     else .reject .proto        -- ProtocolNotSupported is reported in the same class by the harness
@@ -191,14 +192,24 @@ def optErr {α : Type} (o : Option α) (e : Err) : Except Err α :=
   | some a => .ok a
   | none => .error e
 
+/-- what `_choose_alg` raises when the lists are disjoint: KeyExchangeFailed, whose message is built with
+    `b','.join(algs).decode('ascii')` for both lists — a name with a byte ≥ 0x80 makes that raise
+    UnicodeDecodeError instead, which reaches `internal_error()` -/
+def chooseErr (localAlgs remoteAlgs : List Name) : Err :=
+  if localAlgs.any (·.any (· ≥ 128)) || remoteAlgs.any (·.any (· ≥ 128)) then .internal else .kexFailed
+
+/-- `_choose_alg` with its exception -/
+def chooseOrErr (isClient : Bool) (localAlgs remoteAlgs : List Name) : Except Err Name :=
+  optErr (chooseAlg isClient localAlgs remoteAlgs) (chooseErr localAlgs remoteAlgs)
+
 /-- the cipher, MAC and compression choices of `_process_kexinit` (2446-2466), in the code's order -/
 def negotiateRest (isClient : Bool) (loc : LocalAlgs) (peer : KexInit) (kex : Name) : Except Err Negotiated := do
-  let encCS ← optErr (chooseAlg isClient loc.enc peer.encCS) .kexFailed
-  let encSC ← optErr (chooseAlg isClient loc.enc peer.encSC) .kexFailed
-  let macCS ← if needsMac encCS then optErr (chooseAlg isClient loc.mac peer.macCS) .kexFailed else pure encCS
-  let macSC ← if needsMac encSC then optErr (chooseAlg isClient loc.mac peer.macSC) .kexFailed else pure encSC
-  let cmpCS ← optErr (chooseAlg isClient loc.cmp peer.cmpCS) .kexFailed
-  let cmpSC ← optErr (chooseAlg isClient loc.cmp peer.cmpSC) .kexFailed
+  let encCS ← chooseOrErr isClient loc.enc peer.encCS
+  let encSC ← chooseOrErr isClient loc.enc peer.encSC
+  let macCS ← if needsMac encCS then chooseOrErr isClient loc.mac peer.macCS else pure encCS
+  let macSC ← if needsMac encSC then chooseOrErr isClient loc.mac peer.macSC else pure encSC
+  let cmpCS ← chooseOrErr isClient loc.cmp peer.cmpCS
+  let cmpSC ← chooseOrErr isClient loc.cmp peer.cmpSC
   pure { kex := kex, encCS := encCS, encSC := encSC, macCS := macCS, macSC := macSC,
          cmpCS := cmpCS, cmpSC := cmpSC }
 
@@ -210,7 +221,7 @@ def serverLacksHostKey (isClient : Bool) (loc : LocalAlgs) (peer : KexInit) (kex
 /-- the part of `_process_kexinit` that picks algorithms (2433-2466) -/
 def negotiate (isClient : Bool) (loc : LocalAlgs) (peer : KexInit) : Except Err Negotiated :=
   match chooseAlg isClient loc.kex peer.kexAlgs with
-  | none => .error .kexFailed
+  | none => .error (chooseErr loc.kex peer.kexAlgs)
   | some kex =>
     if serverLacksHostKey isClient loc peer kex then .error .kexFailed
     else negotiateRest isClient loc peer kex
